@@ -361,7 +361,7 @@ Definition p_or (f : nat) := p_or_of (p_and f) f.
 Definition p_expr (f : nat) (ctx : tok) (st : lexst) : PR := seq_loop (p_or f) f ctx None st.
 
 Definition total_len (argv : list str) : nat :=
-  fold_right (fun a n => (length a + n + 1)%nat) 2%nat argv.
+  fold_right (fun a n => (length a + n + 12)%nat) 14%nat argv.
 
 (* query_t::parse_args -> parser_t::parse -> parse_query_expr(TOK_ACCOUNT, false): the limit
    predicate (QUERY_LIMIT).  Tokens that cannot continue the query end it silently
